@@ -15,16 +15,19 @@ Mirrored as written (param/parameterized.py):
     Parameterized objects are never equal, `None == None`)
   * `Parameters._update_deps(attribute, init)`: for every table entry, the dynamic specs whose first
     path element is `attribute` (all when `attribute is None`); if any: ALL dynamic watchers of the
-    method are unwatched (`dynamic_watchers.pop(method)`), only the filtered specs are resolved
-    again, grouped by `(id(inst), id(cls), what)` in first-occurrence order, one `_watch_group` each
+    method are unwatched (`dynamic_watchers.pop(method)`) and ALL its dynamic specs are resolved
+    again (`dynamic = all_dynamic`), grouped by `(id(inst), id(cls), what)` in first-occurrence
+    order, one `_watch_group` each
   * `Parameters._spec_to_obj(spec, dynamic=True, intermediate=True)`: intermediate dependencies for
     every part of the path, partial resolution when a sub-object is `None` (nothing at all when the
     first sub-object is `None`), `'….param'` = every Parameter of the sub-object
-  * `_resolve_dynamic_deps` / `_watch_group`: sub-path filter `changed=` and the parent-notification
-    callback are computed from `group[0]` ONLY
+  * `_resolve_dynamic_deps` / `_watch_group`: every dependency of the group contributes its sub-paths
+    to the filter `changed=` — a dict keyed by the group's parameter names (`None`: never skip) — and
+    the parent-notification callback is the first one any of them needs
   * `_m_caller/_sync_caller/_skip_event`: callback first (`obj.param._update_deps(attribute)` with the
-    `attribute` the watcher was built with), then skip iff every sub-path value of the old and the new
-    object compare equal (`None` object → `Undefined`, which equals nothing).
+    `attribute` the watcher was built with), then skip iff the filter has sub-paths for the event's
+    parameter and every sub-path value of the old and the new object compare equal (`None` object →
+    `Undefined`, which equals nothing).
 
 Not modelled: batching (every assignment is dispatched at once), slots (`what != 'value'`),
 `'….param'` below depth 1 and path elements that are not object-valued (rejected: `illFormed`).
@@ -78,6 +81,10 @@ structure PObj where
   vals : List (Name × Val)
   deriving Repr, DecidableEq
 
+/-- the `changed=` dict of a dynamic group: parameter name ↦ sub-paths to compare (`none`: never
+skip), in insertion order -/
+abbrev Changed := List (Name × Option (List (List Name)))
+
 /-- a watcher installed by `_watch_group` (its `fn` is the `_sync_caller` partial) -/
 structure DW where
   id : Nat
@@ -85,7 +92,7 @@ structure DW where
   params : List Name                     -- `parameter_names`
   owner : Oid                            -- the object whose method it calls
   method : Name
-  changed : Option (List (List Name))    -- `changed=` sub-paths; `none`: never skip
+  changed : Changed                      -- `changed=` (every group here is a dynamic one: a dict)
   callback : Option (Option Name)        -- `some attr`: `owner.param._update_deps(attr)` first
   deriving Repr, DecidableEq
 
@@ -226,18 +233,48 @@ def dynGet (d : List ((Oid × Name) × List Nat)) (k : Oid × Name) : List Nat :
   | some e => e.2
   | none => []
 
+/-- `changed.get(name)`, telling an absent key (`none`) from a key mapped to `None` (`some none`) -/
+def chLookup : Changed → Name → Option (Option (List (List Name)))
+  | [], _ => none
+  | (k, v) :: rest, n => if k = n then some v else chLookup rest n
+
+/-- `changed[name] = v` for a key that is present (position kept) -/
+def chSet : Changed → Name → Option (List (List Name)) → Changed
+  | [], _, _ => []
+  | (k, v') :: rest, n, v => if k = n then (k, v) :: rest else (k, v') :: chSet rest n v
+
+/-- `known.extend(p for p in sp if p not in known)` (the generator looks at `known` as it grows) -/
+def extendNew (known sp : List (List Name)) : List (List Name) :=
+  sp.foldl (fun k p => if p ∈ k then k else k ++ [p]) known
+
+/-- one turn of the loop of `_watch_group` on the dict:
+`known = subparams.setdefault(name, [])`; `None` if this or an earlier dependency has no sub-path -/
+def addSubparams (ch : Changed) (name : Name) (sp : Option (List (List Name))) : Changed :=
+  let ch1 := match chLookup ch name with
+    | none => ch ++ [(name, some [])]
+    | some _ => ch
+  match sp, chLookup ch1 name with
+  | some l, some (some known) => chSet ch1 name (some (extendNew known l))
+  | _, _ => chSet ch1 name none
+
+/-- `for ddep, pdep in group: sp, cb, what = _resolve_dynamic_deps(…); callback = callback or cb; …` -/
+def groupFilter (w : PWorld) (t : Oid) (attrib : Option Name) (o : Oid) :
+    List (PathSpec × Name) → Changed × Option (Option Name) → Except PErr (Changed × Option (Option Name))
+  | [], acc => .ok acc
+  | (s, n) :: rest, (ch, cb) =>
+    match resolveDynamicDeps w t s o attrib with
+    | .error e => .error e
+    | .ok (sp, c) => groupFilter w t attrib o rest (addSubparams ch n sp, if cb.isSome then cb else c)
+
 /-- `_watch_group` + `dynamic_watchers[method].append(watcher)` -/
 def watchGroup (w : PWorld) (t : Oid) (method : Name) (attrib : Option Name) (g : Group) : Except PErr PWorld :=
-  match g.2 with
-  | [] => .error .illFormed
-  | (spec0, _) :: _ =>
-    match resolveDynamicDeps w t spec0 g.1 attrib with
-    | .error e => .error e
-    | .ok (subparams, callback) =>
-      let x : DW := { id := w.nextId, on := g.1, params := dedupNames [] (g.2.map (·.2)), owner := t,
-                      method := method, changed := subparams, callback := callback }
-      .ok { w with watchers := w.watchers ++ [x], nextId := w.nextId + 1,
-                   dyn := dynAppend w.dyn (t, method) x.id }
+  match groupFilter w t attrib g.1 g.2 ([], none) with
+  | .error e => .error e
+  | .ok (subparams, callback) =>
+    let x : DW := { id := w.nextId, on := g.1, params := dedupNames [] (g.2.map (·.2)), owner := t,
+                    method := method, changed := subparams, callback := callback }
+    .ok { w with watchers := w.watchers ++ [x], nextId := w.nextId + 1,
+                 dyn := dynAppend w.dyn (t, method) x.id }
 
 def watchGroups (w : PWorld) (t : Oid) (method : Name) (attrib : Option Name) : List Group → Except PErr PWorld
   | [] => .ok w
@@ -266,7 +303,8 @@ def updateEntry (w : PWorld) (t : Oid) (attrib : Option Name) (init : Bool) (m :
       let ids := dynGet w.dyn (t, m.name)
       { w with watchers := w.watchers.filter (fun x => !(ids.contains x.id)),
                dyn := w.dyn.filter (fun e => e.1 ≠ (t, m.name)) }
-    match groupSpecs w1 t [] dynamic with
+    -- `dynamic = all_dynamic`: every dynamic watcher of the method is gone, set them all up again
+    match groupSpecs w1 t [] (if init then dynamic else m.specs) with
     | .error e => .error e
     | .ok groups => watchGroups w1 t m.name attrib groups
 
@@ -300,11 +338,11 @@ def subEq : Option Val → Option Val → Bool
   | some a, some b => valEq a b
   | _, _ => false                                          -- `Undefined` equals nothing
 
-/-- src: _skip_event -/
-def skipEvent (w : PWorld) (changed : Option (List (List Name))) (old new : Val) : Bool :=
-  match changed with
-  | none => false
-  | some ps => ps.all (fun p => subEq (subValue w old p) (subValue w new p))
+/-- src: _skip_event (`name`: the parameter the event is about) -/
+def skipEvent (w : PWorld) (changed : Changed) (name : Name) (old new : Val) : Bool :=
+  match chLookup changed name with
+  | some (some ps) => ps.all (fun p => subEq (subValue w old p) (subValue w new p))
+  | _ => false
 
 def methodSpecs (w : PWorld) (t : Oid) (method : Name) : List PathSpec :=
   match classOf w t with
@@ -317,7 +355,7 @@ def readsOf (w : PWorld) (t : Oid) (method : Name) : List Val :=
   (methodSpecs w t method).map (fun s => if s.leaf = "param" then .none else follow w (.ref t) s.elems)
 
 /-- src: _call_watcher (changes-only, not batching) → _sync_caller -/
-def callWatcherP (w : PWorld) (x : DW) (old new : Val) : Except PErr PWorld :=
+def callWatcherP (w : PWorld) (x : DW) (p : Name) (old new : Val) : Except PErr PWorld :=
   if valEq old new then .ok w
   else
     let r := match x.callback with
@@ -326,15 +364,15 @@ def callWatcherP (w : PWorld) (x : DW) (old new : Val) : Except PErr PWorld :=
     match r with
     | .error e => .error e
     | .ok w1 =>
-      if skipEvent w1 x.changed old new then .ok w1
+      if skipEvent w1 x.changed p old new then .ok w1
       else .ok { w1 with log := w1.log ++ [⟨x.owner, x.method, readsOf w1 x.owner x.method⟩] }
 
-def dispatchP (w : PWorld) (old new : Val) : List DW → Except PErr PWorld
+def dispatchP (w : PWorld) (p : Name) (old new : Val) : List DW → Except PErr PWorld
   | [] => .ok w
   | x :: rest =>
-    match callWatcherP w x old new with
+    match callWatcherP w x p old new with
     | .error e => .error e
-    | .ok w1 => dispatchP w1 old new rest
+    | .ok w1 => dispatchP w1 p old new rest
 
 def setVals : List (Name × Val) → Name → Val → List (Name × Val)
   | [], _, _ => []
@@ -363,7 +401,7 @@ def setParam (w : PWorld) (o : Oid) (p : Name) (v : Val) : Except PErr PWorld :=
         | .error e => .error e
         | .ok w2 =>
           -- `sorted(watchers, …)`: a copy; every watcher here has precedence -1
-          dispatchP w2 old v (w2.watchers.filter (fun x => x.on = o && x.params.contains p))
+          dispatchP w2 p old v (w2.watchers.filter (fun x => x.on = o && x.params.contains p))
   | _, _ => .error .illFormed
 
 /-- `cls(name=…, **vals)`: the values are stored while the object is not initialised (no watcher, no
